@@ -1,5 +1,5 @@
 (* C06 -- changing the units of a model variable never changes what the model computes.
-   Statements only (proofs: Proofs/C06EvalP.v, C06P.v, C06ShapeP.v, C06MainP.v) over Model/ConvertVar.v.
+   Statements only (proofs: Proofs/C06EvalP.v, C06P.v, C06ShapeP.v, C06MainP.v, C06SeqP.v, C06WfP.v) over Model/ConvertVar.v.
    Sat nu dl l: every equation of l holds under the valuation nu of variables and dl of derivative atoms
    (real semantics of Sem/Eval.v, ANY interpretation of the function symbols; the only law assumed of powers is
    x ** -1 = 1/x, proved for the concrete power in C06_power_law_instance).
@@ -12,13 +12,20 @@
    C06_input_free_spec_equiv), and ANY SEQUENCE of such conversions (C06_sequence_equiv).
    The theorems named "_partial" carry syntactic premises; all premises of a step are collected in the computable
    predicate step_ok (next variable indices fresh, left-hand sides distinct, indices in range, all ODEs with respect to the
-   one free variable: C06_step_ok_meaning), which the interpreter evaluates before EVERY conversion of EVERY correspondence
-   case and which must be true (a false value is reported as a broken correspondence).  What is not proved: that
-   well-formed models always satisfy step_ok (it is checked, case by case), and conversions whose factor is irrational
-   (the model returns an error for them; the conversion factor is a positive rational in every theorem). *)
+   one free variable: C06_step_ok_meaning).  They are no longer premises of the sequence theorem: the computable
+   well-formedness predicate wf_state (every variable defined at most once, by an assignment or an ODE; every index of every
+   equation below the number of variables; all ODEs with respect to one variable, which no equation defines) IMPLIES step_ok
+   for every variable in range and both directions (C06_wf_implies_step_ok) and is PRESERVED by every successful conversion
+   of every kind (C06_wf_preserved), so that ANY sequence of successful conversions starting in a well-formed state preserves
+   the solutions (C06_sequence_equiv_from_wf: the only hypotheses are wf_state of the INITIAL state and the law of powers).
+   The interpreter evaluates wf_state ONCE, on the initial state of every correspondence case (a false value is reported as
+   a broken correspondence); everything after that is proved.  (It still evaluates step_ok before every conversion as a
+   cross-check of the extracted model.)  What is not proved: conversions whose factor is irrational (the model returns an
+   error for them; the conversion factor is a positive rational in every theorem); that documents accepted by the parser
+   yield well-formed states is checked case by case (wf_state of the initial state), not proved. *)
 From Coq Require Import List ZArith QArith Bool Reals Qreals.
 From Coq Require Import Permutation.
-From Verif Require Import Sexp UnitAlg UnitAlgP Expr Eval ModelSM ConvertVar C06EvalP C06P C06ShapeP C06ReplaceP C06StateP C06FreeP C06FoldP C06FreeMainP C06MainP C06SeqP.
+From Verif Require Import Sexp UnitAlg UnitAlgP Expr Eval ModelSM ConvertVar C06EvalP C06P C06ShapeP C06ReplaceP C06StateP C06FreeP C06FoldP C06FreeMainP C06MainP C06SeqP C06WfP.
 Import ListNotations.
 Open Scope R_scope.
 
@@ -75,6 +82,40 @@ Theorem C06_sequence_equiv : forall fsem psem csem,
   (forall nu dl, Sat fsem psem csem nu dl (ceqs s'') -> exists dl0, Sat fsem psem csem nu dl0 (ceqs s)).
 Proof. exact sequence_equiv. Qed.
 Print Assumptions C06_sequence_equiv.
+
+(* ---- step_ok as an INVARIANT: well-formedness of the initial state is enough ------------------------------------------ *)
+(* a well-formed state meets the premises of a conversion of ANY variable in range, in both directions *)
+Theorem C06_wf_implies_step_ok : forall s v d,
+  wf_state s = true -> (v < length (cvars s))%nat -> step_ok s v d = true.
+Proof. exact wf_step_ok. Qed.
+Print Assumptions C06_wf_implies_step_ok.
+
+(* every successful conversion (OUTPUT; INPUT of a constant, a computed variable, a state, the free variable; nothing to
+   convert) of a well-formed state yields a well-formed state *)
+Theorem C06_wf_preserved : forall s v target d mv s' n,
+  wf_state s = true -> convert_variable s v target d mv = COk (s', n) -> wf_state s' = true.
+Proof. exact wf_preserved. Qed.
+Print Assumptions C06_wf_preserved.
+
+(* ANY SEQUENCE of successful conversions (Convs: no side condition on any step) starting in a well-formed state: same
+   conclusion as C06_sequence_equiv *)
+Theorem C06_sequence_equiv_from_wf : forall fsem psem csem,
+  (forall x, x <> 0 -> psem x (Q2R (-1 # 1)) = Some (/ x)) ->
+  forall s s'', wf_state s = true -> Convs s s'' ->
+  (forall nu dl, Sat fsem psem csem nu dl (ceqs s) -> exists nu' dl', Sat fsem psem csem nu' dl' (ceqs s'') /\
+     (forall i, (i < length (cvars s))%nat -> nu' i = nu i) /\
+     (forall y t, (y < length (cvars s))%nat -> (t < length (cvars s))%nat -> dl' y t = dl y t)) /\
+  (forall nu dl, Sat fsem psem csem nu dl (ceqs s'') -> exists dl0, Sat fsem psem csem nu dl0 (ceqs s)).
+Proof. exact sequence_from_wf. Qed.
+Print Assumptions C06_sequence_equiv_from_wf.
+
+(* wf_state is satisfiable: a state with an ODE (d x1/d x0), a computed variable and a constant *)
+Theorem C06_wf_example :
+  wf_state wf_example_state = true /\
+  is_state wf_example_state 1 = true /\ free_var wf_example_state = Some 0%nat /\
+  (exists q, var_def wf_example_state 2 = Some q) /\ (exists q, var_def wf_example_state 3 = Some q).
+Proof. exact wf_example. Qed.
+Print Assumptions C06_wf_example.
 
 (* what step_ok demands, spelled out (it is a computable predicate of the state before the step) *)
 Theorem C06_step_ok_meaning : forall s v d, step_ok s v d = true ->
